@@ -134,7 +134,7 @@ def main():
                      "kind_free_text": "repository-specific static analyser on go/packages + go/ssa (x/tools v0.29.0): region path walker, decision-table comparison, typestate/dataflow, confinement and who-may-call rules"}],
         "checks": checks,
         "not_applicable": na,
-        "notes": "All checks are pure static analysis of /repo's current working tree (nothing is executed). Genuine defects found and repaired: see known_findings.json and DESIGN.md §6.",
+        "notes": "All checks are pure static analysis of /repo's current working tree (nothing is executed). Each check runs its property's core rules plus the rules of every component the property's statement depends on (compositions: DESIGN.md §8, RULES.md). Genuine defects found and repaired: see known_findings.json and DESIGN.md §6.",
     }
     if not na:
         del m["not_applicable"]
